@@ -5,11 +5,19 @@
 (*   reset{t, pool:[bytes], seq:[pool index], cmd, ext, ig, iv, grp, acc,       *)
 (*         gname, anames}        a corpus (the lines are pool[seq[i]], in this  *)
 (*                               order) and a command descriptor                *)
-(*   run{kind:"csv"|"snap", ranges:[[lo,hi]], missing, readers, workers,        *)
-(*       exit, msg, stdout}      one execution of the binary: the file          *)
+(*   run{kind:"csv"|"snap", ranges:[[lo,hi]], names:[bytes], missing, readers,  *)
+(*       workers, pace, exit, msg, stdout}                                      *)
+(*                               one execution of the binary: the file          *)
 (*                               arguments hold seq[lo..hi] in argument order   *)
 (*                               (plain, gzip or stdin, whatever tuning flags), *)
-(*                               `missing` further arguments name no file       *)
+(*                               names[i] is what {src} reads for argument i,   *)
+(*                               `missing` further arguments name no file;      *)
+(*                               `pace` = <<[n, ms]>>: stdin was written in     *)
+(*                               bursts of n lines, each followed by a pause of *)
+(*                               ms milliseconds (no observable may depend on   *)
+(*                               it: RareScreen_MC / RareWorker_MC)             *)
+(* A command using {line} / {src} is judged against the reference aggregate of  *)
+(* the layout of the run (ExpectLay), every other against Expect.               *)
 (*                                                                              *)
 (* For every run TLC decodes the CSV bytes with CsvDec and requires: records =  *)
 (* the CSV of the reference aggregate, exit status / final message = ExitState, *)
@@ -20,8 +28,8 @@ EXTENDS Rare, CsvDec, Json
 
 Trace == ndJsonDeserialize("trace.ndjson")
 
-VARIABLES l, tid, exp, snap, bad
-tvars == <<l, tid, exp, snap, bad>>
+VARIABLES l, tid, rst, exp, snap, snapLay, bad
+tvars == <<l, tid, rst, exp, snap, snapLay, bad>>
 
 Ev == Trace[l]
 
@@ -144,18 +152,29 @@ Why(e, r, sn) ==
             ELSE ""
 
 -----------------------------------------------------------------------------
+LayOf(r) == [k \in 1..Len(r.ranges) |-> [name |-> r.names[k], lo |-> r.ranges[k][1], hi |-> r.ranges[k][2]]]
+\* the layouts that matter for {line} / {src}: empty sources removed
+LayKey(r) == SelectSeq(LayOf(r), LAMBDA x : x.lo <= x.hi)
 TReset ==
   /\ l <= Len(Trace) /\ Ev.event = "reset"
-  /\ tid' = Ev.t /\ exp' = Expect(Ev) /\ snap' = <<>>
+  /\ tid' = Ev.t /\ rst' = Ev /\ snap' = <<>> /\ snapLay' = <<>>
+  /\ exp' = IF LayoutDep(CdOf(Ev)) THEN [cd |-> CdOf(Ev)] ELSE Expect(Ev)
   /\ l' = l + 1 /\ UNCHANGED bad
 TRun ==
   /\ l <= Len(Trace) /\ Ev.event = "run"
-  /\ LET w == Why(exp, Ev, snap) IN
-       bad' = IF w = "" THEN bad ELSE Append(bad, [t |-> tid, l |-> l, why |-> w])
-  /\ snap' = IF Ev.kind = "snap" /\ snap = <<>> THEN Ev.stdout ELSE snap
-  /\ l' = l + 1 /\ UNCHANGED <<tid, exp>>
+  /\ LET dep == LayoutDep(exp.cd)
+         lok == RangesOK(Ev, Len(rst.seq)) /\ Len(Ev.names) = Len(Ev.ranges)
+         e   == IF dep /\ lok THEN ExpectLay(rst, LayOf(Ev)) ELSE exp
+         \* snapshots of a layout-dependent command are comparable for equal layouts only
+         sn  == IF dep /\ snapLay # LayKey(Ev) THEN <<>> ELSE snap
+         w   == IF dep /\ ~lok THEN "harness-layout" ELSE Why(e, Ev, sn)
+     IN /\ bad' = IF w = "" THEN bad ELSE Append(bad, [t |-> tid, l |-> l, why |-> w])
+        /\ IF Ev.kind = "snap" /\ snap = <<>>
+           THEN snap' = Ev.stdout /\ snapLay' = LayKey(Ev)
+           ELSE UNCHANGED <<snap, snapLay>>
+  /\ l' = l + 1 /\ UNCHANGED <<tid, rst, exp>>
 
-TInit == l = 1 /\ tid = 0 /\ exp = <<>> /\ snap = <<>> /\ bad = <<>>
+TInit == l = 1 /\ tid = 0 /\ rst = <<>> /\ exp = <<>> /\ snap = <<>> /\ snapLay = <<>> /\ bad = <<>>
 TNext == TReset \/ TRun
 TSpec == TInit /\ [][TNext]_tvars
 
